@@ -51,6 +51,25 @@ Theorem C04_no_other_plaintext_keyed : forall (c : Crypto) (h : hash) (rk : root
 Proof. exact no_other_plaintext_keyed. Qed.
 Print Assumptions C04_no_other_plaintext_keyed.
 
+(* the benign changes in general ("possible only when the change touched fields that influence neither keys nor ciphertext"):
+   a blob whose value differs from the original only in the key-identifier version, flag bits other than bit 0 and the domain /
+   forest names (same_key_fields: L0, L1, L2, root key id, key_info and flag bit 0 unchanged) still decrypts to the plaintext *)
+Theorem C04_benign_fields : forall (c : Crypto) (h : hash) (rk : root_key) (rkid : bytes) (s : sid) (sid : pystr) (time_ns l0 l1 l2 : Z)
+    (cache : ccache) (r1 r2 r3 data B : bytes) (cache1 : ccache) (b0 : blob),
+  rk_hash rk = Ok h -> rk_kdf_alg rk = STR_KDF_ALG -> len rkid = 16 ->
+  sid_parse sid = Ok s -> sid_okb sid = true -> 0 <= time_ns -> interval_of_time_ns time_ns = (l0, l1, l2) ->
+  kdf_nonempty c -> cache_ok c h rk rkid (target_sd s) l0 cache -> len r2 = 12 -> len r3 = 32 ->
+  (forall kek w, derived_kek c h rk rkid (target_sd s) l0 l1 l2 r3 = Ok kek -> kw_wrap c kek r1 = Ok w -> len w < U32) ->
+  (forall ct, gcm_enc c r1 r2 data = Ok ct -> len ct < U32) ->
+  protect_offline c cache r1 r2 r3 data sid (Some rkid) time_ns = (Ok B, cache1) ->
+  blob_unpack B = Ok b0 ->
+  CryptoLaws c ->
+  forall (X : ccache) (B' : bytes) (kid' : key_identifier),
+  same_key_fields (b_key_identifier b0) kid' -> blob_unpack B' = Ok (with_kid b0 kid') ->
+  cache_ok c h rk rkid (target_sd s) l0 X -> fst (unprotect_offline c X B') = Ok data.
+Proof. exact benign_fields. Qed.
+Print Assumptions C04_benign_fields.
+
 (* the routing itself, for any wrapped key / content pair: whatever B' is, a successful unprotect unwrapped the
    wrapped-key field of B' under the KEK derived from B''s own key identifier and SID, read the nonce from B''s
    parameters and decrypted B''s content under the unwrapped key *)
